@@ -1,4 +1,14 @@
-(* C09 - placeholder until the theorems are in place. *)
-Require Import RQ.Base.
-Theorem C09_placeholder : True. Proof. exact I. Qed.
-Print Assumptions C09_placeholder.
+(* C09 - Dashes follow the dash pattern along arc length, restarted per subpath.
+   PARTIAL: the f32 model is compared bit for bit with the crate and the arc-length statement is evaluated on the crate's
+   output; proved here: a non-positive (or NaN) total paints nothing, the dash state restarts at every MoveTo. *)
+Require Import RQ.Base RQ.F32 RQ.Raster RQ.PathF RQ.PathOps RQ.MiscProofs.
+
+Theorem C09_nonpositive_total_paints_nothing_partial : forall arr p off,
+  fgt (let t := fold_left fadd arr f0 in if Z.odd (zlen arr) then fmul t (of_int 2) else t) f0 = false ->
+  dash_path arr p off = Ok (mk_path [] NonZero).
+Proof. exact dash_nonpositive_total_paints_nothing. Qed.
+Print Assumptions C09_nonpositive_total_paints_nothing_partial.
+Theorem C09_restart_at_every_subpath_partial : forall arr initial a p,
+  exists out, dash_op arr initial a (MoveTo p) = Ok (mk_da (Some p) (Some p) true true [] initial out).
+Proof. exact dash_restarts_at_moveto. Qed.
+Print Assumptions C09_restart_at_every_subpath_partial.
